@@ -181,4 +181,36 @@ example : ((runBoth ⟨World.init Db.empty, Spec.init Db.empty⟩ demo).w.commit
 example : ((runBoth ⟨World.init Db.empty, Spec.init Db.empty⟩ demo).w.committed.rows k2).isNone = true := by decide
 example : (runBoth ⟨World.init Db.empty, Spec.init Db.empty⟩ demo).w.committed.links l12 = false := by decide
 
+/-! ### the guard is necessary; what is outside the model -/
+
+/-- The refinement WITHOUT the well-formedness guard: for every history whatsoever. -/
+def C09_full : Prop :=
+  ∀ (d : Db) (ops : List Op),
+    let r := runBoth ⟨World.init d, Spec.init d⟩ ops
+    r.w.committed = r.s.committed ∧ abs r.w = r.s.working
+
+/-- It does not hold, in the model and (replayed by harness/engines/c09.py on every run) on the real code: a program that
+    constructs a second object under a primary key whose first holder is committed but not loaded — the constructor cannot
+    see the clash, the pk index does not contain the key — and deletes the new object again leaves the FIRST object in the
+    database, although "the object with this key" was deleted in the program's view.  (Without the delete the flush fails
+    loudly with TransactionIntegrityError and everything is rolled back.)  `ValidFrom` excludes exactly these programs;
+    `C09_refinement` is the `_partial` theorem with this explicit, decidable guard. -/
+theorem C09_full_false : ¬ C09_full := by
+  intro h
+  have h1 := (h Db.empty [.create ⟨0, 1⟩ [.int 5], .endOk, .create ⟨0, 1⟩ [.int 6], .delete ⟨0, 1⟩, .endOk]).1
+  have h2 := congrArg (fun d => (d.rows ⟨0, 1⟩).isSome) h1
+  revert h2
+  decide
+
+/-- the witness violates the guard at its third call, and only there -/
+example : ¬ ValidFrom ⟨World.init Db.empty, Spec.init Db.empty⟩
+    [.create ⟨0, 1⟩ [.int 5], .endOk, .create ⟨0, 1⟩ [.int 6], .delete ⟨0, 1⟩, .endOk] := by decide
+example : ValidFrom ⟨World.init Db.empty, Spec.init Db.empty⟩ [.create ⟨0, 1⟩ [.int 5], .endOk] := by decide
+
+/- Outside the model altogether (the real code is checked against the same reference machine by the oracle of
+   harness/engines/c09.py only): auto-generated primary keys and the write order of `_save_principal_objects_` that makes
+   them available to referencing rows (C16), composite primary keys, the one-to-many / one-to-one collection sides and
+   cascade rules as such (their effect enters as column-level operations; C12 / C15), lifecycle hooks (C33), read bits and
+   optimistic checks (C20 / C21), lazy attributes, inheritance, several databases in one session. -/
+
 end PonyVerif.Props.C09
